@@ -24,10 +24,17 @@ def r1_search(m):
     ordered = not any(isinstance(c, ast.Call) and A.dotted(c.func) in ("reversed", "sorted", "set") for c in ast.walk(lp.iter))
     # the directories iterated are self.include_dirs (possibly a copy)
     it = A.text(lp.iter)
-    src_ok = it in ("self.include_dirs", "include_dirs", "self.include_dirs[:]")
-    if it == "include_dirs":
-        defs = [n for n in A.body_nodes(nx.node) if isinstance(n, ast.Assign) and A.text(n.targets[0]) == "include_dirs"]
+    src_ok = it in ("self.include_dirs", "self.include_dirs[:]", "list(self.include_dirs)")
+    if isinstance(lp.iter, ast.Name):
+        # a local copy of the reader's list, whatever it is called
+        defs = [n for n in A.body_nodes(nx.node) if isinstance(n, ast.Assign) and A.text(n.targets[0]) == it]
         src_ok = bool(defs) and all(A.text(d.value) in ("self.include_dirs[:]", "self.include_dirs", "list(self.include_dirs)") for d in defs)
+    # the local that holds the item just read
+    item_var = "item"
+    for n in A.body_nodes(nx.node):
+        if isinstance(n, ast.Assign) and len(n.targets) == 1 and isinstance(n.targets[0], ast.Name) and isinstance(n.value, ast.Call) \
+                and A.text(n.value.func) == "self._next":
+            item_var = n.targets[0].id
     tgt = A.text(lp.target)
     cand = None
     brk = False
@@ -61,7 +68,7 @@ def r1_search(m):
         if isinstance(n, ast.If) and isinstance(n.test, ast.UnaryOp) and isinstance(n.test.op, ast.Not) \
                 and isinstance(n.test.operand, ast.Call) and A.dotted(n.test.operand.func) in ("os.path.isfile", "os.path.exists") \
                 and cand and A.text(n.test.operand.args[0]) == cand:
-            unresolved = any(isinstance(s, ast.Return) and A.text(s.value) == "item" for s in n.body)
+            unresolved = any(isinstance(s, ast.Return) and A.text(s.value) == item_var for s in n.body)
     r.ob(unresolved, "next: `if not os.path.isfile(%s): return item`" % cand)
     if not unresolved:
         r.fail("next|unresolved", "FortranReaderBase.next no longer returns the INCLUDE line as an ordinary item when the file is not found", m.loc(nx))
@@ -77,7 +84,7 @@ def r1_search(m):
         extra = []
         P_ = A.parents(nx.node)
         for n in A.body_nodes(nx.node):
-            if isinstance(n, ast.Return) and lo < n.lineno < hi and n.value is not None and A.text(n.value) == "item":
+            if isinstance(n, ast.Return) and lo < n.lineno < hi and n.value is not None and A.text(n.value) == item_var:
                 guard_attrs = set()
                 x = n
                 while x in P_ and P_[x] is not nx.node:
@@ -110,7 +117,7 @@ def r1_search(m):
     ok = False
     if ctor:
         kw = {k.arg: A.text(k.value) for k in ctor[0].keywords}
-        ok = kw.get("include_dirs") in ("include_dirs", "self.include_dirs", "self.include_dirs[:]") and kw.get("ignore_comments") == "ignore_comments" \
+        ok = kw.get("include_dirs") in (it, "self.include_dirs", "self.include_dirs[:]") and kw.get("ignore_comments") == "ignore_comments" \
             and cand and A.text(ctor[0].args[0]) == cand
         # every option the file reader shares with the base reader travels to the nested reader
         fk, bk = m.key("FortranFileReader", RF), m.key("FortranReaderBase", RF)
